@@ -125,6 +125,15 @@ def run(ctx):
              "process state (same analysis as C11 R11.1)")
     from rules.rtcommon import private_storage_rule
     private_storage_rule(ctx, "R2.7", "streams and metadata")
+    ctx.rule("R2.8", "clocks cannot go backwards at their source and the emulator's merge does not misorder them: "
+             "ovni_clock_now reads the clock ovni_proc_init selects, which must be one POSIX / Linux define as monotonic "
+             "(the wall clock can be stepped back); stream_cmp, the key of the player's heap, orders every pair of "
+             "64-bit clocks correctly (C03 R3.2's evaluation: a narrowed difference rejects valid traces whose "
+             "streams are seconds apart)")
+    from rules import round3
+    round3.check_clock_source(ctx, "R2.8")
+    from rules.C03 import check_stream_cmp
+    check_stream_cmp(ctx, "R2.8")
 
     # ---- R2.4 -----------------------------------------------------------------------
     # writer side: literal keys set in libovni (formats normalised at the first '%')
